@@ -42,7 +42,8 @@ TRUSTED_BASE = [
     "raise KeyError / IndexError / TypeError; `in` on `parent.parameters` answers either way without raising",
     "compile(..., PyCF_ONLY_AST) may raise SyntaxError (incl. IndentationError) or ValueError (UnicodeEncodeError for lone surrogates; null bytes on "
     "Python < 3.12); RecursionError / MemoryError for pathologically nested text are not modelled",
-    "safe_get_annotation never raises (its body catches Exception; contract C03/safe_get_expression)",
+    "safe_get_annotation never raises: no longer assumed, it is the contract C03 safe_get_expression.total (the reporting path of a failure reads the parent's "
+    "file path, which raises for modules built in memory: repaired, see C12-F6)",
 ]
 ASSUMPTIONS = [
     "termination is proved per loop by a strictly decreasing variant bounded below; the iteration of `for` loops over finite lists terminates by construction",
